@@ -231,9 +231,9 @@ var _ = mangos.OptionRaw
 func TestC19MaxRecvSizeEffect(t *testing.T) {
 	stats.ScaledChecks(20, 8, func() {
 		rapid.Check(t, func(t *rapid.T) {
-			tr := rapid.SampledFrom([]string{"tcp", "ipc", "tls+tcp"}).Draw(t, "transport")
+			tr := rapid.SampledFrom([]string{"tcp", "ipc", "tls+tcp", "ws", "wss"}).Draw(t, "transport")
 			role := rapid.SampledFrom([]string{"listener", "dialer"}).Draw(t, "receiverIs")
-			where := rapid.SampledFrom([]string{"socket-before", "endpoint-before", "socket-after", "endpoint-after"}).Draw(t, "setWhere")
+			where := rapid.SampledFrom([]string{"socket-before", "endpoint-before", "endpoint-map", "socket-after", "endpoint-after"}).Draw(t, "setWhere")
 			limit := rapid.SampledFrom([]int{1, 64, 100, 1000, 4096, 70000}).Draw(t, "limit")
 			was := rapid.SampledFrom([]int{0, 1 << 20, 16}).Draw(t, "previousLimit")
 			doc := map[string]interface{}{"test": "TestC19MaxRecvSizeEffect", "transport": tr, "receiver_is": role, "set": where, "limit": limit, "previous": was, "rseed": os.Getenv("VERIF_RSEED")}
@@ -275,9 +275,17 @@ func TestC19MaxRecvSizeEffect(t *testing.T) {
 				GetOption(string) (interface{}, error)
 			}
 			if role == "listener" {
-				l, err := R.NewListener(addr, fixture.ListenOpts(tr))
+				lo := fixture.ListenOpts(tr)
+				if where == "endpoint-map" {
+					if lo == nil {
+						lo = map[string]interface{}{}
+					}
+					lo[mangos.OptionMaxRecvSize] = limit
+				}
+				l, err := R.NewListener(addr, lo)
 				if err != nil {
-					t.Fatalf("harness: %v", err)
+					fail("newlistener", "NewListener with MAX-RCV-SIZE in the option map: %v", err)
+					return
 				}
 				ep = l
 				if where == "endpoint-before" && !set(l, limit) {
@@ -287,9 +295,14 @@ func TestC19MaxRecvSizeEffect(t *testing.T) {
 					t.Skip("port busy")
 				}
 			} else {
-				d, err := R.NewDialer(addr, fast(fixture.DialOpts(tr)))
+				do := fast(fixture.DialOpts(tr))
+				if where == "endpoint-map" {
+					do[mangos.OptionMaxRecvSize] = limit
+				}
+				d, err := R.NewDialer(addr, do)
 				if err != nil {
-					t.Fatalf("harness: %v", err)
+					fail("newdialer", "NewDialer with MAX-RCV-SIZE in the option map: %v", err)
+					return
 				}
 				ep = d
 				if where == "endpoint-before" && !set(d, limit) {
